@@ -372,6 +372,15 @@ def rule_R4(ctx, prj):
         v = vals[idx]
         if isinstance(v, Lin) and len(v.terms) == 1 and v.const == 0 and list(v.terms.values()) == [1]:
             v = reg.by_name.get(next(iter(v.terms)), v)
+        if isinstance(v, Lin) and len(v.terms) == 1 and v.const == 0 and list(v.terms.values()) == [-1]:
+            # -floor(X) is ceil(-X) (the mirrored way of rounding up)
+            t = reg.by_name.get(next(iter(v.terms)))
+            if t is not None and _op(t) == "floor":
+                try:
+                    neg = Lin.of(t.fields["a"]).scale(-1).simplify()
+                    v = Sym(f"ceil({neg!r})", op="ceil", a=neg, b=None, args=[neg])
+                except Unknown:
+                    pass
         v = _strip_clamp(v)
         key = f"quality_profile_percentage/{nm}/rounding"
         op = _op(v)
